@@ -552,7 +552,7 @@ Qed.
 
 Theorem lstep_upd_refines (w : world) p o i r :
   pool w = map abs p -> winv p ->
-  match o with OSetCell _ _ _ _ | ORename _ _ _ _ | OSetColFromCol _ _ _ _ | OSetColFromSlice _ _ _ _ => False | _ => True end ->
+  match o with OSetCell _ _ _ _ | ORename _ _ _ _ | OSetColFromCol _ _ _ _ | OSetColFromSlice _ _ _ _ | OSetCol _ _ _ => False | _ => True end ->
   lstep p o = LUpd i r -> snd (step w o) = OkUnit -> fst (step w o) = put w i (abs r).
 Proof.
   intros Hp Hw Hno Hl Hs. destruct o; cbn [lstep] in Hl; try discriminate; try contradiction.
@@ -844,6 +844,17 @@ Proof.
     cbn. reflexivity.
 Qed.
 
+(* ---------- BaseColumn._tosequence on the generated bounds is the L0 value coercion ---------- *)
+Lemma rhs_cells_k_spec k n r : rhs_cells_k k n r = rhs_cells k n r.
+Proof.
+  destruct r as [v|vs]; [reflexivity|]. unfold rhs_cells_k, rhs_cells, k_toseq_take, k_toseq_badlen.
+  replace (Z.to_nat (Z.of_nat n + 1)) with (S n) by lia.
+  destruct (coerce_all k (firstn (S n) vs)) as [xs|e]; cbn [bind]; [|reflexivity].
+  destruct (Nat.eqb (List.length xs) n) eqn:E.
+  - apply Nat.eqb_eq in E. rewrite E, Z.eqb_refl. reflexivity.
+  - apply Nat.eqb_neq in E. destruct (Z.eqb_spec (Z.of_nat (List.length xs)) (Z.of_nat n)) as [H|H]; [lia|reflexivity].
+Qed.
+
 (* ---------- col[[i, j, ...]] = value: sequential range-checked writes (generated test) ---------- *)
 Lemma seqkey_oob_spec i n : k_seqkey_oob i (Z.of_nat n) = ((i <? 0)%Z || (Z.of_nat n <=? i)%Z).
 Proof. unfold k_seqkey_oob. rewrite Z.geb_leb. reflexivity. Qed.
@@ -878,6 +889,7 @@ Proof.
   change (slots (abs t)) with (map slot_of_col (l_cols t)). rewrite nth_error_map.
   destruct (nth_error (l_cols t) ci) as [c|] eqn:Ec; cbn [option_map]; [|exact I].
   cbn [address]. change (skind (slot_of_col c)) with (lc_kind c). change (scells (slot_of_col c)) with (lc_cells c).
+  rewrite rhs_cells_k_spec.
   destruct (rhs_cells (lc_kind c) (List.length l) r) as [xs|e] eqn:Er; [|eexists; reflexivity].
   assert (Hlen : List.length (lc_cells c) = nrows (abs t)).
   { rewrite Forall_forall in Hcols. destruct (Hcols c (nth_error_In _ _ Ec)) as [_ Hl _]. exact Hl. }
